@@ -52,9 +52,10 @@ def main():
             print("REJECT: the existing suite does not pass with the change"); meta["confirmed"] = False
             json.dump(meta, open(f"{out}/meta.json", "w"), indent=1); return 1
         # 2. demo with the change must fail
+        os.makedirs(f"{wt}/palette/tests", exist_ok=True)
         shutil.copy(f"{sd}/demo.rs", f"{wt}/palette/tests/seeded_demo.rs")
         rc1, o1 = sh(f"{tgt} cargo test -p palette --offline --test seeded_demo {fflag} 2>&1 | grep -E '^test result|panicked|error' | head -5", cwd=wt)
-        with_fail = "FAILED" in o1 or "failed" in o1 and "0 failed" not in o1
+        with_fail = ("FAILED" in o1) or ("panicked" in o1) or ("failed" in o1 and "0 failed" not in o1)
         ran.append("demo with change: " + o1.strip().replace("\n", " | ")[:300])
         print(ran[-1])
         # 3. demo without the change must pass
